@@ -112,7 +112,8 @@ def generate_code(prog: Program, eng=None) -> str:
             modes_str = ", ".join(modes)
         else:
             modes_str = "(" + ", ".join(modes) + ")"
-        op = f"    ops.{name}({params_str}) | {modes_str}"
+        dagger_str = ".H" if getattr(cmd.op, "dagger", False) else ""
+        op = f"    ops.{name}({params_str}){dagger_str} | {modes_str}"
 
         code_seq.append(op)
 
